@@ -285,20 +285,26 @@ class DensityTauNative:
     three times on the same object: with random fractional fillings (some exactly zero), after the fillings were overwritten IN PLACE through
     `atoms.occ.f[...] = ...`, and after a new array was assigned through the setter - every evaluation uses the current fillings."""
 
+    def __init__(self, backend="numpy"):
+        self.backend = backend
+
     def problems(self, seed):
         import eminus
         from eminus import Atoms
+        from eminus import backend as xp
         from eminus.dft import get_n_single, get_n_spin, get_n_total, orth
         from eminus.energies import get_Ekin
         from eminus.gga import get_tau
 
-        eminus.config.backend = "numpy"
+        eminus.config.backend = self.backend
+        if eminus.config.backend != self.backend:
+            raise RuntimeError(f"harness: the {self.backend} backend is not available")
         eminus.config.verbose = "critical"
         rng = np.random.default_rng(seed)
         at = Atoms("He2", [[0.1, 0.2, 0.3], [0.3, 0.1, 3.4]], ecut=3, a=[[6.0, 0.3, 0.1], [0.2, 6.5, 0.4], [0.5, 0.1, 7.0]], unrestricted=True)
         at.set_k([[0.0, 0.0, 0.0], [0.2, 0.1, 0.05], [0.1, -0.3, 0.2]], [0.2, 0.3, 0.5])
         at.build()
-        W = [rng.standard_normal((2, len(at.Gk2c[ik]), at.occ.Nstate)) + 1j * rng.standard_normal((2, len(at.Gk2c[ik]), at.occ.Nstate)) for ik in range(at.kpts.Nk)]
+        W = [xp.asarray(rng.standard_normal((2, len(at.Gk2c[ik]), at.occ.Nstate)) + 1j * rng.standard_normal((2, len(at.Gk2c[ik]), at.occ.Nstate))) for ik in range(at.kpts.Nk)]
         Y = orth(at, W)
         bad = []
 
@@ -307,7 +313,7 @@ class DensityTauNative:
             ns, nt, n1 = np.asarray(get_n_spin(at, Y)), np.asarray(get_n_total(at, Y)), np.asarray(get_n_single(at, Y))
             nel = float(np.sum(f * np.asarray(at.kpts.wk)[:, None, None]))
             tau = np.asarray(get_tau(at, Y))
-            ekin = sum(get_Ekin(at, Y[ik], ik) for ik in range(at.kpts.Nk))
+            ekin = float(sum(get_Ekin(at, Y[ik], ik) for ik in range(at.kpts.Nk)))
             err = dict(negative_density=float(max(0.0, -ns.min())), total_vs_spin=float(np.abs(nt - ns.sum(axis=0)).max()),
                        total_vs_single=float(np.abs(nt - n1.sum(axis=(0, 2))).max()), electrons=float(abs(nt.sum() * at.dV - nel)),
                        negative_tau=float(max(0.0, -tau.min())), tau_integral_vs_Ekin=float(abs(tau.sum() * at.dV - ekin) / abs(ekin)))
@@ -317,22 +323,30 @@ class DensityTauNative:
         f0 = rng.uniform(0.1, 1.0, np.shape(at.occ.f))
         f0[0, 0, 0] = 0.0
         f0[-1, 1, 0] = 0.0
-        at.occ._f = f0  # per-k-point fillings (the public setter takes one (Nspin, Nstate) pattern for all k-points)
+        at.occ._f = xp.asarray(f0)  # per-k-point fillings (the public setter takes one (Nspin, Nstate) pattern for all k-points)
         evaluate("fillings assigned")
         fa = at.occ.f
-        fa[...] = rng.uniform(0.0, 1.0, np.shape(fa))  # in place, through the array the property hands out
+        fa[...] = xp.asarray(rng.uniform(0.0, 1.0, np.shape(fa)))  # in place, through the array the property hands out
         evaluate("fillings overwritten in place (atoms.occ.f[...] = new)")
-        at.occ._f = rng.uniform(0.2, 0.9, np.shape(fa))
+        at.occ._f = xp.asarray(rng.uniform(0.2, 0.9, np.shape(fa)))
         evaluate("a new filling array assigned")
         return bad
 
     def __call__(self, ob, tier, seed):
         from pycv.framework import BOUNDED_OK
 
+        import eminus
+
         try:
             bad = self.problems(seed)
+        except RuntimeError as e:
+            if str(e).startswith("harness:"):
+                return Result(UNDECIDED, backend="native", detail=str(e))
+            bad = [dict(raised=f"{type(e).__name__}: {e}")]
         except Exception as e:  # noqa: BLE001
             bad = [dict(raised=f"{type(e).__name__}: {e}")]
+        finally:
+            eminus.config.backend = "numpy"
         if bad:
             return Result(REFUTED, backend="native", witness=dict(seed=seed, **{k: v for k, v in bad[0].items() if k == "stage"}), replayed=True, replay_info=dict(failing=bad),
                           detail=f"density / kinetic-energy-density clauses on a real object: {bad[0]}")
@@ -343,6 +357,10 @@ class DensityTauNative:
         return bool(bad), dict(failing=bad)
 
 
+register(Obligation(name="C04.density_tau.native_same_object_changing_fillings.torch_backend", prop=PROP, engine="B", bounded=True, run=DensityTauNative("torch"),
+                    functions=["eminus.dft:get_n_spin", "eminus.dft:get_n_total", "eminus.dft:get_n_single", "eminus.gga:get_tau", "eminus.energies:get_Ekin"],
+                    doc="BOUNDED: the same clauses with the Torch array backend (the package default when torch is importable; lazy conjugate views, other in-place semantics); "
+                        "this is the property under that backend, not a comparison of the two backends (C18)"))
 register(Obligation(name="C04.density_tau.native_same_object_changing_fillings", prop=PROP, engine="B", bounded=True, run=DensityTauNative(),
                     functions=["eminus.dft:get_n_spin", "eminus.dft:get_n_total", "eminus.dft:get_n_single", "eminus.gga:get_tau", "eminus.energies:get_Ekin", "eminus.occupations:Occupations.F"],
                     doc="BOUNDED: density / tau clauses on one real object while its fillings change (assigned, overwritten in place, assigned again)"))
